@@ -92,17 +92,22 @@ func (l *RootPeerList) Get(hostPort string) (*Peer, bool) {
 
 func (l *RootPeerList) onClosedConnRemoved(peer *Peer) {
 	hostPort := peer.HostPort()
-	p, ok := l.Get(hostPort)
-	if !ok {
-		// It's possible that multiple connections were closed and removed at the same time,
-		// so multiple goroutines might be removing the peer from the root peer list.
-		return
-	}
 
-	if p.canRemove() {
-		l.Lock()
+	// The check and the removal happen under the write lock: a connection that
+	// is added to the peer concurrently is either seen by canRemove, or its
+	// adder finds the peer gone when it looks it up afterwards (see
+	// Channel.addConnectionToPeer).
+	l.Lock()
+	p, ok := l.peersByHostPort[hostPort]
+	// It's possible that multiple connections were closed and removed at the same time,
+	// so multiple goroutines might be removing the peer from the root peer list.
+	removed := ok && p.canRemove()
+	if removed {
 		delete(l.peersByHostPort, hostPort)
-		l.Unlock()
+	}
+	l.Unlock()
+
+	if removed {
 		l.channel.Logger().WithFields(
 			LogField{"remoteHostPort", hostPort},
 		).Debug("Removed peer from root peer list.")
